@@ -2,7 +2,7 @@
 """Generate one preservation lemma per scheduler action for an invariant structure.
 usage: gen_sched_cases.py <InvName> <nfields> [variant-expr] [grind-hints] [extra-hyps]"""
 import sys
-ACTS = [("submit","m o se"),("done","q"),("loadDone","r ok"),("timerFire","r"),("explicitUnload","m"),("setPing","r ok"),
+ACTS = [("submit","m o se"),("done","q"),("loadDone","r ok"),("timerFire","r"),("explicitUnload","m"),("setPing","r ok"),("setPingBlock","r"),("pingDone","r ok"),
  ("pTake",""),("pDrainUnloaded",""),("pLookup","fit"),("pNeedsReload",""),("pUse",""),("pExpire",""),("pWaitUnload",""),
  ("pLoad","ok"),("cTakeFinished",""),("cFin",""),("cTakeExpired",""),("cExp",""),("cVram",""),("requeue","r"),
  ("delayedRequeue","q"),("finishSend","q"),("timerCb","r"),("unloadRun","r")]
